@@ -551,7 +551,30 @@ func (g *Gen) storeAt(st *State, ref string, t types.Type, tag string, val strin
 	st.mem[tag] = g.sc.define("m_"+tag, g.sc.tagSort[tag], fmt.Sprintf("(store %s %s %s)", cur, ref, val))
 	if g.storeFresh {
 		g.sc.oldEq[st.mem[tag]] = g.sc.oldBase(cur)
+	} else {
+		g.frameWrite(st, tag, fmt.Sprintf("(rb %s)", ref), cur, st.mem[tag])
 	}
+}
+
+// frameWrite: a write that is not syntactically known to hit an object allocated by this function. If the contract's
+// modifies clause names no location in this heap tag, the write must target an object allocated after entry
+// (local obligation, the per-write form of the frame condition); the new version then agrees with the old one on
+// all pre-existing objects.
+func (g *Gen) frameWrite(st *State, tag, rbTerm, cur, nw string) {
+	if g.ct == nil || g.ct.ModAll || g.ct.ModHeap || g.entry == nil || g.oldFrontier == "" {
+		return
+	}
+	if !strings.HasPrefix(g.sc.tagSort[tag], "(Array Ref ") {
+		return
+	}
+	if excl, err := g.modifiedRefs(tag); err != nil || len(excl) > 0 {
+		return // the tag has declared modifiable locations: checked by the whole-function frame obligation
+	}
+	goal := fmt.Sprintf("(>= %s %s)", rbTerm, g.oldFrontier)
+	o := g.addObl("frame-write", tag, st, goal, token.NoPos)
+	o.Text = "write to a heap location outside the modifies clause must target an object allocated by the function"
+	g.sc.assume(st.pc, goal)
+	g.sc.oldEq[nw] = g.sc.oldBase(cur)
 }
 
 // isFreshRoot: the address points into an object allocated by this function.
@@ -583,13 +606,24 @@ func (g *Gen) havocTag(st *State, tag string) {
 	st.mem[tag] = n
 }
 
-func (g *Gen) havocAll(st *State) {
+func (g *Gen) havocAll(st *State) { g.havocAllBut(st, false) }
+
+// havocHeap forgets every heap cell but keeps ghost state and call counters.
+func (g *Gen) havocHeap(st *State) { g.havocAllBut(st, true) }
+
+func (g *Gen) havocAllBut(st *State, keepGhost bool) {
 	// keep non-heap tags (visited sets of ranges) and the allocation frontier monotone
 	fr := g.frontier(st)
 	keep := map[string]string{}
-	for t, v := range st.mem {
-		if strings.HasPrefix(t, "V!") {
-			keep[t] = v
+	for t := range g.sc.tagSort {
+		if strings.HasPrefix(t, "V!") || (keepGhost && (strings.HasPrefix(t, "G!") || strings.HasPrefix(t, "N!"))) {
+			if strings.HasPrefix(t, "V!") {
+				if v, ok := st.mem[t]; ok {
+					keep[t] = v
+				}
+				continue
+			}
+			keep[t] = g.sc.lookup(st, t)
 		}
 	}
 	st.epoch = g.sc.newEpoch(nil)
@@ -682,6 +716,13 @@ func (g *Gen) mapUpdate(st *State, mt *types.Map, m, k, v string) {
 	st.mem[l] = g.sc.define("m_len", g.sc.tagSort[l], fmt.Sprintf("(store %s %s (ite %s (select %s %s) (+ (select %s %s) 1)))", lens, m, had, lens, m, lens, m))
 	st.mem[d] = g.sc.define("m_dom", g.sc.tagSort[d], fmt.Sprintf("(store %s %s (store (select %s %s) %s true))", dom, m, dom, m, k))
 	st.mem[vt] = g.sc.define("m_val", g.sc.tagSort[vt], fmt.Sprintf("(store %s %s (store (select %s %s) %s %s))", vals, m, vals, m, k, v))
+	if g.storeFresh {
+		g.sc.oldEq[st.mem[l]], g.sc.oldEq[st.mem[d]], g.sc.oldEq[st.mem[vt]] = g.sc.oldBase(lens), g.sc.oldBase(dom), g.sc.oldBase(vals)
+	} else {
+		g.frameWrite(st, l, fmt.Sprintf("(rb %s)", m), lens, st.mem[l])
+		g.frameWrite(st, d, fmt.Sprintf("(rb %s)", m), dom, st.mem[d])
+		g.frameWrite(st, vt, fmt.Sprintf("(rb %s)", m), vals, st.mem[vt])
+	}
 }
 
 // ---------------------------------------------------------------------------
